@@ -13,11 +13,15 @@ for pid in ids:
         d = tempfile.mkdtemp(prefix='vxmut.', dir='/dev/shm')
         try:
             subprocess.run(['rsync', '-a', '--exclude', '.git', '/repo/', d + '/'], check=True)
-            p = os.path.join(d, m['file'])
-            s = open(p).read()
-            if m['old'] not in s:
+            stale = False
+            for e in [m] + m.get('more', []):
+                p = os.path.join(d, e['file'])
+                s = open(p).read()
+                if e['old'] not in s:
+                    stale = True; break
+                open(p, 'w').write(s.replace(e['old'], e['new'], 1))
+            if stale:
                 res.append({**m, 'result': 'STALE (old text not found)'}); print(pid, m['name'], 'STALE'); continue
-            open(p, 'w').write(s.replace(m['old'], m['new'], 1))
             b = subprocess.run(['go', 'build', '-mod=mod', './...'], cwd=d, capture_output=True, text=True)
             if b.returncode != 0:
                 res.append({**m, 'result': 'DOES NOT COMPILE', 'out': b.stderr[-400:]}); print(pid, m['name'], 'NOCOMPILE'); continue
